@@ -12,7 +12,8 @@ import random
 from harness.lib import hx, zl, cz, cbool, clist, copt
 
 ID = 'C07'
-RULE = ('(plus: a coverage grid of every listed operation x ragged/flat x every encoding with negative indices and empty '
+RULE = ('(plus: every index in every spelling the API accepts — Python list / tuple / ndarray of each integer dtype / NumPy scalars / bool mask as ndarray, list of bool, list of np.bool_ — on flat, ragged, ragged-row, ravel()ed and 2-d arrays; split with separator lists in every order; '
+        'also: a coverage grid of every listed operation x ragged/flat x every encoding with negative indices and empty '
         'selections; copy() of never-observed views; (non-letter member)+32 operand characters) '
         'programs of 1..6 NumPy-style steps (row/column integer, slice, mask, fancy indexing, reversal, ==/!= with '
         'character / string / list / array, item assignment through every index form, concatenate/append/insert/where, '
@@ -1063,7 +1064,7 @@ def _rrows(rng, enc, N, M):
 def generate(tier, seed):
     rng = random.Random(seed * 1000003 + 7)
     cases = []
-    n_prog = 900 if tier == 'quick' else 9000
+    n_prog = 700 if tier == 'quick' else 7000
     N, M = (4, 4) if tier == 'quick' else (6, 6)
     # 1. single-step programs over a small grid of shapes: every op kind on every boundary shape
     shapes = [[], [''], ['', ''], ['A'], ['AC'], ['', 'A'], ['A', ''], ['AC', '', 'G'], ['ACG', 'T', 'GA'], ['', 'CA', ''], ['AC', 'GT']]
